@@ -129,6 +129,7 @@ def gen(rng, tier):
                     elif not lo or rng.random() < 0.3:
                         p[ax] = float(ft(p[ax] + (box if rng.random() < 0.8 or p[ax] < 0 else -box)))
     return {'shape': shape, 'box': box, 'dtype': dtype, 'nthread': nthread, 'npartition': npartition,
+            'layout': rng.choice(['C', 'C', 'C', 'cols-view', 'fortran', 'strided', 'readonly']),
             'coord': coord, 'sort': rng.random() < 0.3, 'offset': offset, 'wrap': wrap,
             'pos': pos, 'weights': weights, 'sched': gen_sched(rng), 'poison': rng.choice(['A', 'B'])}
 
@@ -194,7 +195,9 @@ def _call(tsc, case, pos, weights, nthread, npartition):
     shape = tuple(case['shape'])
     box = case['box']
     off = 0.0 if case['offset'] == '0' else 0.5 * box / shape[case['coord']]
-    return tsc.tsc_parallel(pos.copy(), shape, box, weights=None if weights is None else weights.copy(),
+    from e1_threads import harness as H
+    lay = case.get('layout', 'C')
+    return tsc.tsc_parallel(H.with_layout(pos, lay, writable_needed=case['wrap']), shape, box, weights=H.with_layout(weights, lay),
                             nthread=nthread, wrap=case['wrap'], npartition=npartition, sort=case['sort'],
                             coord=case['coord'], offset=off)
 
@@ -312,6 +315,8 @@ def shrink(case):
         yield dict(c, sort=False)
     if case['wrap']:
         yield dict(c, wrap=False)
+    if case.get('layout', 'C') != 'C':
+        yield dict(c, layout='C')
     if case['offset'] != '0':
         yield dict(c, offset='0')
     if case['sched'].get('strategy') != 'serial' and 'replay' not in case['sched']:
